@@ -187,5 +187,21 @@ def _relocation(spec, ctx, io, graphs, A, B, rec_root, arg, nested, doc):
     if got_a != want_a:
         ctx.fail(f"{spec['ctype']}: loading under the same audio directory does not restore the paths", spec, {k: str(v) for k, v in got_a.items()}, {k: str(v) for k, v in want_a.items()}, kind="same_dir")
 
+    # two saves / two loads running in two threads (one suspended inside the library while the other runs to its end), into two files
+    # of the same folder and under two different audio directories: each document is relative to its own directory
+    doc2 = doc[:-5] + "-b.json"
+
+    def save_read(target, adir):
+        io.save(obj, target, audio_dir=arg(adir))
+        with open(target) as fh:
+            return {r["uuid"]: r["path"] for r in json.load(fh)["data"].get("recordings") or []}
+
+    def load_paths(adir):
+        return {str(r.uuid): str(r.path) for r in graphs.walk(io.load(doc, audio_dir=arg(adir)))["recording_objects"]}
+
+    if ctx.interleave(spec, "io.save(audio_dir=...)", lambda: save_read(doc, A), lambda: save_read(doc2, A.parent), every=3, max_pauses=40):
+        ctx.interleave(spec, "io.load(audio_dir=...)", lambda: load_paths(B), lambda: load_paths(A), max_pauses=40)
+
+
 
 SUBS = [Sub(f"paths_{ct}", check, strategy=make_case(ct), quick=250, thorough=8000, min_nontrivial=0.1) for ct in graphs.CTYPES]
